@@ -158,6 +158,27 @@ pub fn check(c: &Case) -> Outcome {
         }
         Ok(_) => {}
     }
+    // the *same* context, completed after the program has already failed against it once: the host defines what was
+    // missing and executes again
+    {
+        let mut ctx = build(false);
+        let first = guard(|| prog.execute(&ctx));
+        if matches!(first, Ok(Err(ExecutionError::UndeclaredReference(_)))) {
+            for (i, v) in vlist.iter().enumerate() {
+                if c.var_mask & (1 << (i % 64)) == 0 {
+                    ctx.add_variable_from_value(v.as_str(), to_cel(&var_value(c.value_kind, i)).unwrap());
+                }
+            }
+            for (i, f) in flist.iter().enumerate() {
+                if c.fn_mask & (1 << (i % 64)) == 0 {
+                    stub(&mut ctx, f);
+                }
+            }
+            if let Ok(Err(ExecutionError::UndeclaredReference(n))) = guard(|| prog.execute(&ctx)) {
+                return fail(format!("`{src}`: the program failed against a partial context; the host then defined every missing reported name ({vars:?} / {funcs:?}) in that same context, yet execution still fails with an undeclared reference to {n:?}"));
+            }
+        }
+    }
     // the report is a function of the program alone
     match guard(|| refs(&prog)) {
         Ok((v2, f2)) => {
